@@ -75,7 +75,17 @@ def describe(relpath, qualname):
 
 def enum_members(relpath, clsname):
     '''Members of an Enum class as listed in the source: [(name, value-node)].'''
-    cls = find(relpath, clsname)
+    try:
+        cls = find(relpath, clsname)
+    except Missing:
+        # functional API:  Name = enum.IntEnum('Name', 'A B C')
+        tree, _ = module_ast(relpath)
+        for st in tree.body:
+            if isinstance(st, ast.Assign) and len(st.targets) == 1 and isinstance(st.targets[0], ast.Name) \
+                    and st.targets[0].id == clsname and isinstance(st.value, ast.Call) and len(st.value.args) >= 2 \
+                    and isinstance(st.value.args[1], ast.Constant) and isinstance(st.value.args[1].value, str):
+                return st.value.args[1].value.replace(',', ' ').split()
+        raise
     out = []
     for st in cls.body:
         if isinstance(st, ast.Assign) and len(st.targets) == 1 and isinstance(st.targets[0], ast.Name):
